@@ -211,23 +211,43 @@ func checkC03(r *RunResult) []Violation {
 		if drainStartSeq == 0 {
 			continue
 		}
+		// Everything that happens in the scheduler step in which the command
+		// returns is concurrent with the return; "at return" means at the end
+		// of that step.
+		retEnd := 1 << 60
+		for i := range r.H.Events {
+			e := &r.H.Events[i]
+			if e.Seq > c.Ret && (e.Kind == "step" || e.Kind == "stall") {
+				retEnd = e.Seq
+				break
+			}
+		}
+		// (b) no request bytes are put on the wire to drained targets afterwards
+		for i := range r.H.Events {
+			e := &r.H.Events[i]
+			if e.Kind == "net.write" && dset[e.Target] && e.Seq > retEnd && e.Seq < until {
+				out = append(out, Violation{Prop: "C03", Clause: "request-sent-after-return", Sig: c.Op.Kind,
+					Msg: fmt.Sprintf("the proxy wrote %d request bytes to drained target %s (%s) at #%d (t=%v), after %s had returned at #%d (t=%v)", e.N, e.Target, e.Obj, e.Seq, e.T, c.Op.Kind, c.Ret, c.RetT)})
+				break
+			}
+		}
 		for _, x := range xs {
 			if !dset[x.target] {
 				continue
 			}
+			// an exchange the target only looked at after the proxy had already
+			// closed the connection is not the proxy's doing any more
+			if connClosedBefore(r, x.recv.Obj, x.recv.Seq) {
+				continue
+			}
 			// (a) quiescent at return
-			if x.recv.Seq < c.Ret && (x.end == nil || x.end.Seq > c.Ret) {
+			if x.recv.Seq < c.Ret && (x.end == nil || x.end.Seq > retEnd) {
 				endS := "never"
 				if x.end != nil {
 					endS = fmt.Sprintf("#%d (t=%v)", x.end.Seq, x.end.T)
 				}
 				out = append(out, Violation{Prop: "C03", Clause: "exchange-open-at-return", Sig: c.Op.Kind,
 					Msg: fmt.Sprintf("%s returned at #%d (t=%v) while request %s, received by drained target %s at #%d, was still open (ended %s)", c.Op.Kind, c.Ret, c.RetT, x.req, x.target, x.recv.Seq, endS)})
-			}
-			// (b) nothing is sent to them afterwards
-			if x.recv.Seq > c.Ret && x.recv.Seq < until {
-				out = append(out, Violation{Prop: "C03", Clause: "request-sent-after-return", Sig: c.Op.Kind,
-					Msg: fmt.Sprintf("request %s reached drained target %s at #%d (t=%v), after %s had returned at #%d (t=%v)", x.req, x.target, x.recv.Seq, x.recv.T, c.Op.Kind, c.Ret, c.RetT)})
 			}
 			if x.recv.Seq < drainStartSeq {
 				r.Probes["inflight_at_drain_start"]++
@@ -273,4 +293,19 @@ func checkC03(r *RunResult) []Violation {
 		}
 	}
 	return out
+}
+
+// connClosedBefore reports whether the proxy side of connection id had been
+// closed before event seq.
+func connClosedBefore(r *RunResult, id string, seq int) bool {
+	for i := range r.H.Events {
+		e := &r.H.Events[i]
+		if e.Seq >= seq {
+			return false
+		}
+		if e.Kind == "net.close" && e.Obj == id && strings.HasPrefix(e.Info, "client-side") {
+			return true
+		}
+	}
+	return false
 }
